@@ -168,6 +168,7 @@ def run(tier, seed, replay=None):
             nrep += 1
     if problems:
         rep.violation("proof", {"broken": problems}, no_input=not (xdiffs or adiffs))
+    model_corr = C.compiler_model_tie(rep, PID, tier, seed + 2000, bool(xdiffs or adiffs)) if have_lean and not replay else {}
     if replay:
         print("xcmp differences:", xdiffs[:3]); print("hexasm differences:", adiffs[:3])
 
@@ -184,6 +185,7 @@ def run(tier, seed, replay=None):
         "samples": [xs[-1][:300] if xs else "", (asms[-1][:200].decode("latin1") if asms else "")],
         "outcome_classes": dict(cls.most_common(40)), "differences_xcmp": len(xdiffs), "differences_hexasm": len(adiffs),
         "traces_validated_against_impl": xobs + aobs - len(xdiffs) - len(adiffs), "lean": info,
+        "compiler_model_correspondence": model_corr,
     })
     rep.assumptions += ["uninitialised reads are exhibited by perturbation, not detected directly (no MSan-instrumented libstdc++)",
                         "MALLOC_PERTURB_ acts on the non-sanitizer build; the ASan build is perturbed with malloc_fill_byte"]
